@@ -2,6 +2,7 @@ import Driver.Util
 import Driver.StoreCmds
 import BitcaskVerif.Resp.Server
 import BitcaskVerif.Resp.Client
+import BitcaskVerif.Resp.ServerFault
 
 namespace Driver
 open Resp
@@ -56,6 +57,32 @@ def netStep (ns : NS) (toks : List String) : Option (NS × String) :=
         | .del _ => (match cliDel r with | .ok n => s!"ok I:{n}" | .error e => errStr e)
       let req := match encode (Cmd.toFrame c) with | some b => hexTok b | none => "unencodable"
       some (ns, out ++ " req=" ++ req)
+    | _, _ => none
+  | ["srvf.outcomes", req, probes] =>
+    -- every way the server may treat the request `req` when at most one store call made for it fails: the reply (or `-`
+    -- when the connection is dropped without one), then what the probe keys read in the running server and after a restart
+    let replyTok : Frame → String
+      | .simple b => "S:" ++ hexOfBytes b
+      | .integer n => s!"I:{n}"
+      | .null => "N"
+      | .bulk v => "B:" ++ showVal v
+      | _ => "?"
+    let rd (m : KV) (k : List UInt8) : String := match m k with | some v => "B:" ++ showVal v | none => "N"
+    match bytesOfHex req, (probes.splitOn ",").mapM bytesOfHex with
+    | some rq, some ks =>
+      match readAll [rq] with
+      | .frame f :: _ =>
+        match Cmd.ofFrame f with
+        | .ok c =>
+          let s0 : SF := ⟨ns.kv, ns.kv⟩
+          let rss : List (List CallRes) := [[]] ++ (List.range c.calls).flatMap fun i =>
+            [List.replicate i CallRes.ok ++ [CallRes.failKept], List.replicate i CallRes.ok ++ [CallRes.failApplied]]
+          let outs := rss.map fun rs =>
+            let (s1, r) := applyCmdF s0 c rs
+            (match r with | some f => replyTok f | none => "-") ++ "/" ++ ",".intercalate (ks.map (rd s1.live)) ++ "/" ++ ",".intercalate (ks.map (rd s1.disk))
+          some (ns, " ".intercalate outs.eraseDups)
+        | .error _ => some (ns, "bad-command")
+      | _ => some (ns, "bad-frame")
     | _, _ => none
   | ["kv.get", k] =>
     (bytesOfHex k).map fun k => (ns, match ns.kv k with | some v => showVal v | none => "nil")
